@@ -214,7 +214,10 @@ type condWaiter struct {
 	signalled bool
 	thread    int
 }
-type wgState struct{ n int64 }
+type wgState struct {
+	n  int64
+	vc map[int]int
+}
 
 func newMonitor() *Monitor {
 	return &Monitor{locks: map[string]*lockState{}, guards: map[string]bool{}, conds: map[string]*condState{}, wgs: map[string]*wgState{}}
@@ -320,7 +323,61 @@ func (m *Machine) heldAdequately(write bool) bool {
 	return false
 }
 
+// raceCell is the happens-before bookkeeping of one memory cell.
+type raceCell struct {
+	wTid, wClk int
+	hasW       bool
+	reads      map[int]int
+}
+
+// raceCheck implements the vector-clock data-race check for one access by the current thread.
+func (m *Machine) raceCheck(key string, write bool) {
+	cells, _ := m.Extra["racecells"].(map[string]*raceCell)
+	if cells == nil {
+		cells = map[string]*raceCell{}
+		m.Extra["racecells"] = cells
+	}
+	t := m.Sched.cur
+	c := cells[key]
+	if c == nil {
+		c = &raceCell{reads: map[int]int{}}
+		cells[key] = c
+	}
+	report := func(kind string) {
+		rs, _ := m.Extra["races"].([]string)
+		if len(rs) < 8 {
+			m.Extra["races"] = append(rs, kind+" on "+key)
+		}
+	}
+	if c.hasW && c.wTid != t.id && c.wClk > t.vc[c.wTid] {
+		if write {
+			report("write/write race")
+		} else {
+			report("read/write race")
+		}
+	}
+	if write {
+		for tid, clk := range c.reads {
+			if tid != t.id && clk > t.vc[tid] {
+				report("write/read race")
+			}
+		}
+		c.hasW, c.wTid, c.wClk = true, t.id, t.vc[t.id]
+		c.reads = map[int]int{}
+	} else {
+		c.reads[t.id] = t.vc[t.id]
+	}
+}
+
+func (m *Machine) raceOn() bool {
+	on, _ := m.Extra["raceon"].(bool)
+	return on && len(m.Sched.threads) > 1
+}
+
 func (m *Machine) access(p Ptr, write bool) {
+	if p.Obj != nil && m.raceOn() && !m.isLockObj(p.Obj) {
+		m.raceCheck(fmt.Sprintf("obj%d%v(%s)", p.Obj.ID, p.Path, p.Obj.Name), write)
+	}
 	if m.Mon == nil || !m.Mon.Enabled || p.Obj == nil || !p.Obj.Shared {
 		return
 	}
@@ -328,12 +385,23 @@ func (m *Machine) access(p Ptr, write bool) {
 }
 
 func (m *Machine) accessRange(s Slice, write bool) {
-	if s.Base.Obj != nil {
-		m.access(s.Base, write)
+	if s.Base.Obj == nil {
+		return
+	}
+	if m.raceOn() {
+		for i := 0; i < s.Len; i++ {
+			m.raceCheck(fmt.Sprintf("obj%d%v[%d](%s)", s.Base.Obj.ID, s.Base.Path, s.Off+i, s.Base.Obj.Name), write)
+		}
+	}
+	if m.Mon != nil && m.Mon.Enabled && s.Base.Obj.Shared {
+		m.checkAccess(fmt.Sprintf("obj%d(%s)", s.Base.Obj.ID, s.Base.Obj.Name), write)
 	}
 }
 
 func (m *Machine) accessMap(mp *MapV, write bool) {
+	if mp != nil && m.raceOn() {
+		m.raceCheck(fmt.Sprintf("map#%d", mp.ID), write)
+	}
 	if m.Mon == nil || !m.Mon.Enabled || mp == nil || !m.sharedMaps()[mp] {
 		return
 	}
@@ -540,11 +608,15 @@ func init() {
 		if wg.n < 0 {
 			m.goPanicStr("sync: negative WaitGroup counter")
 		}
+		ls := &lockState{vc: wg.vc}
+		m.hbRelease(ls)
+		wg.vc = ls.vc
 		return nil
 	})
 	reg("(*sync.WaitGroup).Wait", func(m *Machine, fn *ssa.Function, a []Value) Value {
 		wg := m.Mon.wg(recvPtr(a))
 		m.Yield(func() bool { return wg.n == 0 }, "WaitGroup.Wait")
+		m.hbAcquire(&lockState{vc: wg.vc})
 		return nil
 	})
 }
